@@ -44,7 +44,7 @@ TRANSPORTS = ("pythonpath", "imports_info", "pickled")
 # building the downstream module
 
 
-def build_downstream(stub, modname, rng, import_style):
+def build_downstream(stub, modname, rng, import_style, pairs=()):
   """Returns (source, probes).  probe = dict(kind, bname, line, expect | skip, what)."""
   from vf.oracle import c06_types as T
   if import_style == "from" and "." in modname:
@@ -140,6 +140,19 @@ def build_downstream(stub, modname, rng, import_style):
               {"kind": "elem", "bname": f"zz_e_{name}", "what": f"{name}{sub}", "expect": et})
         except T.Skip:
           pass
+  # -- expressions the upstream module evaluated itself (`n = rec.get_key()`), recomputed by B
+  #    through the stub: B must get the type A's analysis inferred for n
+  for a_name, expr in pairs:
+    p = {"kind": "pair", "bname": f"zz_p_{a_name}", "what": expr.replace("{M}.", "")}
+    if a_name not in stub.consts:
+      skipped(p, "the upstream stub does not declare the paired name as a constant")
+      continue
+    try:
+      p["expect"] = stub.const_type(a_name)
+    except T.Skip as e:
+      skipped(p, e)
+      continue
+    add(f"zz_p_{a_name} = " + expr.replace("{M}", ref), p)
   # -- functions: re-export + call
   for name in sorted(stub.funcs):
     if not public(name):
@@ -301,6 +314,10 @@ def diff_mechanism(e, g, classes):
       return diff_mechanism(ds[0][0], ds[0][1], classes)
     return f"{h}[...]: {len(ds)} parameters differ"
   he, hg = _head(e, classes), _head(g, classes)
+  if he == hg and e[0] == "g" and g[0] == "n":
+    return f"{he}[...] lost its type arguments"
+  if he == hg and e[0] == "n" and g[0] == "g":
+    return f"bare {he} gained type arguments"
   if he == hg:
     return f"{he}: different {'classes' if he == '<A-class>' else 'contents'}"
   return f"{he} became {hg}"
@@ -451,7 +468,8 @@ def judge(stub_a, probes, b_results, modname):
   return vio, counts
 
 
-_KIND_TEXT = {"elem": "container element", "vattr": "attribute read on a value read from the stub",
+_KIND_TEXT = {"pair": "expression the upstream evaluated itself, recomputed downstream",
+              "elem": "container element", "vattr": "attribute read on a value read from the stub",
               "vmcall": "method call on a value read from the stub",
               "const": "constant", "class": "re-exported class", "instance": "constructor call result",
               "attr": "attribute read", "mcall": "method call result", "call": "function call result"}
@@ -522,15 +540,19 @@ def one_case(seed, i, root_base):
   from vf.gen import programs, c06_features
   rng = random.Random(f"C06-{seed}-{i}")
   feature = i % 5 == 4       # every fifth upstream is a feature program (vf/gen/c06_features.py)
-  a_src = c06_features.generate(rng) if feature else programs.generate(rng)
+  pairs = []
+  if feature:
+    a_src, pairs = c06_features.generate_with_pairs(rng)
+  else:
+    a_src = programs.generate(rng)
   modname = "a" if i % 2 == 0 else "pkg.sub.a"
   import_style = "from" if (i // 2) % 2 else "import"
-  r = run_case(a_src, modname, import_style, rng, os.path.join(root_base, str(i)))
+  r = run_case(a_src, modname, import_style, rng, os.path.join(root_base, str(i)), pairs)
   r["arm"] = "feature" if feature else "C01"
   return r
 
 
-def run_case(a_src, modname, import_style, rng, root):
+def run_case(a_src, modname, import_style, rng, root, pairs=()):
   from vf.oracle import c06_types as T
   out = {"skipped": None, "violations": [], "counts": {}, "nontrivial": False}
   shutil.rmtree(root, ignore_errors=True)
@@ -551,7 +573,8 @@ def run_case(a_src, modname, import_style, rng, root):
     if len(public) < 3:
       out["skipped"] = "fewer than 3 public names"
       return out
-    b_src, probes = build_downstream(stub_a, modname, rng, import_style)
+    b_src, probes = build_downstream(stub_a, modname, rng, import_style, pairs)
+    out["pairs"] = [list(x) for x in pairs]
     results = {}
     for tname in TRANSPORTS:
       try:
@@ -614,7 +637,8 @@ def child(arg):
         seen.add(key)
         out["violations"].append({"key": key, "detail": detail, "a_src": r["a_src"], "s_a": r["s_a"],
                                   "b_src": r["b_src"], "s_b": r["s_b"], "modname": r["modname"],
-                                  "import_style": r["import_style"], "case": [seed, i]})
+                                  "import_style": r["import_style"], "case": [seed, i],
+                                  "pairs": r.get("pairs", [])})
       if len(out["samples"]) < 1 and r["nontrivial"] and len(r["a_src"]) < 1800:
         out["samples"].append({"modname": r["modname"], "a_src": r["a_src"], "s_a": r["s_a"],
                                "b_src": r["b_src"], "s_b": r["s_b"], "probes": r["n_probes"]})
@@ -679,9 +703,11 @@ def replay(rec):
     if "case" in w and not os.environ.get("VERIF_C06_REPLAY_SRC"):
       r = one_case(w["case"][0], w["case"][1], base)
       if r.get("a_src") != w["a_src"]:
-        r = run_case(w["a_src"], w["modname"], w["import_style"], random.Random(0), os.path.join(base, "x"))
+        r = run_case(w["a_src"], w["modname"], w["import_style"], random.Random(0), os.path.join(base, "x"),
+                     [tuple(x) for x in w.get("pairs", [])])
     else:
-      r = run_case(w["a_src"], w["modname"], w["import_style"], random.Random(0), os.path.join(base, "x"))
+      r = run_case(w["a_src"], w["modname"], w["import_style"], random.Random(0), os.path.join(base, "x"),
+                   [tuple(x) for x in w.get("pairs", [])])
   finally:
     shutil.rmtree(base, ignore_errors=True)
   keys = [k for k, _ in r["violations"]]
